@@ -30,11 +30,11 @@ AnnotTy == {"withStack", "withHint", "withDetail", "withSafeDetails", "withTelem
             "withMark", "withSecondaryError", "withHTTPCode", "withGrpcCode",
             "pkgWithStack", "uAnnotWrap", "uKeyWrap"}
 \* Wrappers whose Error() is "s: cause" (cause alone when s is empty).
-PrefixTy == {"withPrefix", "uWrapU", "uWrapC", "uWrapUC"}
+PrefixTy == {"withPrefix", "uWrapU", "uWrapC", "uWrapUC", "uRegWrap"}
 \* Wrappers whose Error() is always "s: cause", even for an empty s.
 AlwaysPrefixTy == {"pkgWithMessage", "osPathError", "osLinkError", "osSyscallError", "netOpError"}
 \* Wrappers that own the full message (s is the whole text).
-FullTy   == {"withNewMessage", "goWrapError", "uWrapFull"}
+FullTy   == {"withNewMessage", "goWrapError", "uWrapFull", "uRegWrapFull"}
 \* Leaves (s is the whole text).
 LeafTy   == {"leafError", "goErr", "ctxDeadline", "errno", "opaqueErrno", "pkgFundamental",
              "unimplementedError", "barrierErr", "uPtrLeaf", "uValLeaf", "uValPtrLeaf", "uRegLeaf",
@@ -43,7 +43,7 @@ LeafTy   == {"leafError", "goErr", "ctxDeadline", "errno", "opaqueErrno", "pkgFu
 \* Multi-cause nodes: text = branch texts joined by NL ...
 JoinTy   == {"joinError", "goJoin"}
 \* ... or own text.
-MultiOwnTy == {"goWrapErrors", "opaqueLeafCauses", "uMulti", "uMultiIs"}
+MultiOwnTy == {"goWrapErrors", "opaqueLeafCauses", "uMulti", "uMultiIs", "uRegMulti"}
 OpaqueTy == {"opaqueLeaf", "opaqueLeafCauses", "opaqueWrapper"}
 
 WrapTy  == AnnotTy \cup PrefixTy \cup AlwaysPrefixTy \cup FullTy \cup {"opaqueWrapper"}
@@ -58,7 +58,7 @@ IsLeaf(v)  == ~IsWrap(v) /\ ~IsMulti(v)
 \* Types that only expose Cause(), invisible to the standard library.
 CauseOnlyTy == {"uWrapC"}
 \* Wrapper types without a Cause() method, invisible to pkg/errors.Cause.
-NoCauseTy == {"goWrapError", "osPathError", "osLinkError", "osSyscallError", "netOpError", "uWrapU", "uWrapFull",
+NoCauseTy == {"goWrapError", "osPathError", "osLinkError", "osSyscallError", "netOpError", "uWrapU", "uWrapFull", "uRegWrap", "uRegWrapFull",
               "uAnnotWrap", "uKeyWrap", "uMaybe"}
 
 \* flags aligned with AllNodes(v): the node is reachable by the standard library's
